@@ -99,6 +99,9 @@ def lheap(ctx):
         'len': z3.Const(n + '.len', z3.ArraySort(z3.IntSort(), z3.IntSort())),
         'desc': z3.Const(n + '.desc', z3.ArraySort(z3.IntSort(),
                                                    z3.BoolSort())),
+        # heap[r]: the list satisfies the heapq order invariant
+        'heap': z3.Const(n + '.heap', z3.ArraySort(z3.IntSort(),
+                                                   z3.BoolSort())),
         'alloc': z3.Int(n + '.alloc'),
     }
     ctx._lheap_entry = dict(ctx._lheap)
@@ -140,6 +143,7 @@ def ddl_getitem(ex, recv, idx, node):
   h['bag'] = z3.Store(h['bag'], r, empty_bag())
   h['len'] = z3.Store(h['len'], r, z3.IntVal(0))
   h['desc'] = z3.Store(h['desc'], r, z3.BoolVal(True))
+  h['heap'] = z3.Store(h['heap'], r, z3.BoolVal(True))   # [] is a heap
   recv.dom = z3.SetAdd(recv.dom, k)
   recv.ref = z3.Store(recv.ref, k, r)
   recv.dirty = True
@@ -173,12 +177,21 @@ def _ddl_items(ex, recv, args, kwargs, node):
                        to_term=lambda v: v.items[0].t)
 
 
-@lib('heapq.heappush', 'heappush(h, x): bag(h) gains x, len(h) grows by one')
+def _need_heap(ex, h, q, node, what):
+  ex.ctx.oblige(z3.Select(h['heap'], q.ref),
+                '%s: the list is a heap (heapq order invariant)' % what, 'pre',
+                ('C14', 'C03'))
+  ex.ctx.assume(z3.Select(h['heap'], q.ref))
+
+
+@lib('heapq.heappush', 'heappush(h, x) on a heap h: bag(h) gains x, len(h) '
+     'grows by one, h stays a heap')
 def _heappush(ex, args, kwargs, node):
   h = lheap(ex.ctx)
   q, item = args
   if not isinstance(q, VListRef):
     ex.unsupported(node, 'heappush on %s' % q.kind)
+  _need_heap(ex, h, q, node, 'heappush')
   x = item_term(item)
   b = z3.Select(h['bag'], q.ref)
   h['bag'] = z3.Store(h['bag'], q.ref, z3.Store(b, x, z3.Select(b, x) + 1))
@@ -196,6 +209,7 @@ def _heappushpop(ex, args, kwargs, node):
   q, item = args
   if not isinstance(q, VListRef):
     ex.unsupported(node, 'heappushpop on %s' % q.kind)
+  _need_heap(ex, h, q, node, 'heappushpop')
   x = item_term(item)
   b = z3.Select(h['bag'], q.ref)
   b1 = z3.Store(b, x, z3.Select(b, x) + 1)
@@ -226,6 +240,7 @@ def _nlargest(ex, args, kwargs, node):
   h['bag'] = z3.Store(h['bag'], r, z3.Select(h['bag'], q.ref))
   h['len'] = z3.Store(h['len'], r, z3.Select(h['len'], q.ref))
   h['desc'] = z3.Store(h['desc'], r, z3.BoolVal(True))
+  h['heap'] = z3.Store(h['heap'], r, z3.Select(h['len'], q.ref) <= 1)
   return VListRef(r)
 
 
@@ -239,6 +254,34 @@ def _nsmallest(ex, args, kwargs, node):
   h['bag'] = z3.Store(h['bag'], r, z3.Select(h['bag'], q.ref))
   h['len'] = z3.Store(h['len'], r, z3.Select(h['len'], q.ref))
   h['desc'] = z3.Store(h['desc'], r, z3.Select(h['len'], q.ref) <= 1)
+  h['heap'] = z3.Store(h['heap'], r, z3.BoolVal(True))   # ascending = heap
+  return VListRef(r)
+
+
+@vmethod('listref', 'sort')
+def _list_sort(ex, recv, args, kwargs, node):
+  """list.sort(): same multiset; ascending order is a valid heap, descending
+  order is not (unless at most one element)."""
+  h = lheap(ex.ctx)
+  rev = kwargs.get('reverse', VBool(False))
+  rv = as_bool_term(rev)
+  short = z3.Select(h['len'], recv.ref) <= 1
+  h['desc'] = z3.Store(h['desc'], recv.ref, z3.Or(rv, short))
+  h['heap'] = z3.Store(h['heap'], recv.ref, z3.Or(z3.Not(rv), short))
+  return NONE
+
+
+ASSUMPTIONS.append('list.sort(reverse=r) keeps the multiset; an ascending '
+                   'list is a heap, a descending list of two or more '
+                   'distinct-position items is not assumed to be one')
+
+
+def listref_copy(ex, v):
+  h = lheap(ex.ctx)
+  r = h['alloc']
+  h['alloc'] = r + 1
+  for k in ('bag', 'len', 'desc', 'heap'):
+    h[k] = z3.Store(h[k], r, z3.Select(h[k], v.ref))
   return VListRef(r)
 
 
